@@ -115,16 +115,21 @@ def cases(draw):
         "deep_to_shallow": draw(st.sampled_from([None, True, False, True, False])),
         "how": draw(st.sampled_from(["once", "twice", "two_calls", "two_calls_reversed"])),
         "route": draw(st.sampled_from(["function", "function", "accessor"])),
+        "omit_unset": draw(st.booleans()),
         "names_as": draw(st.sampled_from(["list", "list", "tuple", "iterator", "generator",
                                           "data_arrays", "dict_keys"])),
     }
 
 
-def call(spec, ds, route, pd, d2s, names_as="list"):
+def call(spec, ds, route, pd, d2s, names_as="list", omit_unset=False):
     from emsarray.operations import depth as depth_ops
+    options = {"positive_down": pd, "deep_to_shallow": d2s}
+    if omit_unset:
+        # an option left unset: not passed at all (the documented default is None)
+        options = {k: v for k, v in options.items() if v is not None}
     if route == "accessor":
         conv = specs.bind_convention(spec, ds)
-        return conv.normalize_depth_variables(positive_down=pd, deep_to_shallow=d2s)
+        return conv.normalize_depth_variables(**options)
     names = [dc["name"] for dc in spec["depths"]]
     # the parameter is documented as an iterable of names or data arrays: any iterable will do,
     # also one that can be walked only once
@@ -138,7 +143,7 @@ def call(spec, ds, route, pd, d2s, names_as="list"):
         names = [ds[n] for n in names]
     elif names_as == "dict_keys":
         names = dict.fromkeys(names).keys()
-    return depth_ops.normalize_depth_variables(ds, names, positive_down=pd, deep_to_shallow=d2s)
+    return depth_ops.normalize_depth_variables(ds, names, **options)
 
 
 def check_case(case, ctx):
@@ -153,12 +158,13 @@ def check_case(case, ctx):
         ctx.at("C13.normalize")
         how = case["how"]
         names_as = case.get("names_as", "list")
+        omit = bool(case.get("omit_unset"))
         if how == "two_calls":
-            out = call(spec, call(spec, ds, case["route"], pd, None, names_as), case["route"], None, d2s, names_as)
+            out = call(spec, call(spec, ds, case["route"], pd, None, names_as, omit), case["route"], None, d2s, names_as, omit)
         elif how == "two_calls_reversed":
-            out = call(spec, call(spec, ds, case["route"], None, d2s, names_as), case["route"], pd, None, names_as)
+            out = call(spec, call(spec, ds, case["route"], None, d2s, names_as, omit), case["route"], pd, None, names_as, omit)
         else:
-            out = call(spec, ds, case["route"], pd, d2s, names_as)
+            out = call(spec, ds, case["route"], pd, d2s, names_as, omit)
         what = (f"normalize_depth_variables(positive_down={pd}, deep_to_shallow={d2s}) [{how}, "
                 f"{case['route']}]")
 
@@ -247,11 +253,11 @@ def check_case(case, ctx):
                       lambda: f"{what}: no option given but the dataset changed: {_diff(out, snapshot)}")
         # ---- idempotence
         ctx.at("C13.idempotent")
-        again = call(spec, out, case["route"], pd, d2s, names_as)
+        again = call(spec, out, case["route"], pd, d2s, names_as, omit)
         ctx.check(again.identical(out), "C13.idempotent",
                   lambda: f"{what}: applying it again changes the dataset: {_diff(again, out)}")
         if how == "twice":
-            third = call(spec, again, case["route"], pd, d2s, names_as)
+            third = call(spec, again, case["route"], pd, d2s, names_as, omit)
             ctx.check(third.identical(out), "C13.idempotent",
                       lambda: f"{what}: third application changes the dataset")
     # ---- documented warning for a missing positive attribute
